@@ -8,6 +8,7 @@ import (
 	"bytes"
 	"context"
 	"crypto/sha256"
+	"encoding/json"
 	"errors"
 	"fmt"
 	"io"
@@ -208,7 +209,7 @@ func (s *Server) RoundTrip(req *http.Request) (*http.Response, error) {
 				if isBlobGet && req.Header.Get("Range") != "" {
 					menu = append(menu, k)
 				}
-			case "badjson":
+			case "badjson", "manifest-empty-digest", "manifest-short-digest", "manifest-nohex-digest", "manifest-null-layer", "manifest-negative-size", "manifest-dup-layer":
 				if strings.Contains(path, "/manifests/") && req.Method == "GET" {
 					menu = append(menu, k)
 				}
@@ -266,6 +267,32 @@ func (s *Server) RoundTrip(req *http.Request) (*http.Response, error) {
 			b.data = []byte(`{"layers": [`)
 			res.Header.Set("Content-Length", strconv.Itoa(len(b.data)))
 			res.ContentLength = int64(len(b.data))
+		case "manifest-empty-digest", "manifest-short-digest", "manifest-nohex-digest", "manifest-null-layer", "manifest-negative-size", "manifest-dup-layer":
+			// well-formed JSON whose content is malformed: the first layer entry is altered
+			var m map[string]any
+			if json.Unmarshal(b.data, &m) == nil {
+				if layers, ok := m["layers"].([]any); ok && len(layers) > 0 {
+					if l0, ok := layers[0].(map[string]any); ok {
+						switch fault {
+						case "manifest-empty-digest":
+							l0["digest"] = ""
+						case "manifest-short-digest":
+							l0["digest"] = "sha256:ab"
+						case "manifest-nohex-digest":
+							l0["digest"] = "sha256:" + strings.Repeat("z", 64)
+						case "manifest-null-layer":
+							layers[0] = nil
+						case "manifest-negative-size":
+							l0["size"] = -1
+						case "manifest-dup-layer":
+							m["layers"] = append(layers, l0)
+						}
+					}
+				}
+				b.data, _ = json.Marshal(m)
+				res.Header.Set("Content-Length", strconv.Itoa(len(b.data)))
+				res.ContentLength = int64(len(b.data))
+			}
 		}
 	}
 	return res, nil
